@@ -89,7 +89,7 @@ impl<'bundle, 'ast, 'args, 'errors, R, M> Scope<'bundle, 'ast, 'args, 'errors, R
         W: fmt::Write,
         M: MemoizerKind,
     {
-        if self.travelled.contains(&pattern) {
+        if self.travelled.iter().any(|p| std::ptr::eq(*p, pattern)) {
             self.add_error(ResolverError::Cyclic);
             w.write_char('{')?;
             exp.write_error(w)?;
